@@ -38,13 +38,30 @@ func fileOpts(tier string, minBatches int, long bool) core.HistOpts {
 // itself fails (unusable workload).
 func genFile(r *core.Rng, o core.HistOpts) (*fileWL, bool) {
 	w := core.GenHistory(r, o)
+	// one file in four of a shape that has a permuted twin is read back by the
+	// code generated for the twin (same columns, fields declared in another order)
+	if p, has := permutedReader[w.Shape]; has && r.Chance(1, 4) {
+		w.ReadAs = p
+	}
 	ref, ok := refWrite(w)
 	if !ok {
 		return &fileWL{W: w, Ref: ref}, false
 	}
-	f := &fileWL{W: w, Ref: ref, Data: ref.Sink.Data, Want: core.Flatten(ref.Batches), Regions: sinkRegions(ref)}
+	f := &fileWL{W: w, Ref: ref, Data: ref.Sink.Data, Want: wantAs(w, core.Flatten(ref.Batches)), Regions: sinkRegions(ref)}
 	f.Digest = core.HashBytes(append([]byte(w.HistoryString()), f.Data...))
 	return f, true
+}
+
+// permutedReader: shapes that exist a second time with their fields declared
+// in another order; the second struct only ever reads files of the first.
+var permutedReader = map[string]string{"flat": "flatp", "kv": "kvp", "nested": "nestedp"}
+
+// wantAs expresses the model's records in the struct type that reads the file.
+func wantAs(w *core.WriterSpec, recs []interface{}) []interface{} {
+	if w.ReadAs == "" {
+		return recs
+	}
+	return core.ConvertRecs(recs, core.GetShape(w.ReadAs).Type)
 }
 
 // baselineRead reads data through an ideal source of the given kind.
@@ -77,7 +94,7 @@ func fileOfCase(c *core.Case) (*fileWL, error) {
 	if !ok {
 		return nil, fmt.Errorf("the writer history of the case does not produce a file on an ideal sink")
 	}
-	f := &fileWL{W: c.W, Ref: ref, Data: ref.Sink.Data, Want: core.Flatten(ref.Batches), Regions: sinkRegions(ref)}
+	f := &fileWL{W: c.W, Ref: ref, Data: ref.Sink.Data, Want: wantAs(c.W, core.Flatten(ref.Batches)), Regions: sinkRegions(ref)}
 	f.Digest = core.HashBytes(append([]byte(c.W.HistoryString()), f.Data...))
 	return f, nil
 }
